@@ -88,10 +88,11 @@ def plan(tier):
         CH("cli", "harness.c10", "api_file_name", [""], timeout=t, desc="API file written before generation; stage order"),
         CH("docstring_types", "harness.c01doc", "docstring_types",
            [f"0:{st},1:{n},2:{j}" + sfx for st in range(3) for n in range(4) for j in range(3)
-            for sfx in ([f",3:{x}" for x in range(3)] if n == 1 and j == 0 else [""])
+            for sfx in ([f",3:{x}" for x in range(3)] if n == 1 and j == 0 else
+                        [f",3:0,4:{w},5:{a}" for w in range(3) for a in range(14)] if tier == "thorough" and n == 2 else [""])
             if not (n == 0 and j) and (tier == "thorough" or ((st == 0 or n < 2) and not (n == 3 and j == 2)))], timeout=t,
            desc="docstring type texts (unions / or / comma lists of names, constants, subscripts, tuples, 'optional') are "
                 "translated without exception and within the time budget",
            stubs=["griffe Docstring of an empty function as the name-resolution scope", "griffe.parse_annotation runs natively (outside the tracer)"],
-           symbolic="shape selectors of the type-text grammar"),
+           symbolic="shape selectors of the type-text grammar", allow_empty=tier == "thorough"),
     ]
